@@ -120,6 +120,12 @@ impl Check for C06 {
             reheads.push(J::obj().set("orig", o).set("halts", rng.below(3) as i64));
         }
         reheads.push(J::obj().set("orig", rng.below(0x10000) as i64).set("halts", rng.below(40) as i64));
+        if index % 8 == 0 {
+            // Whole-memory images: exactly filling memory from origin 0, and one word more
+            reheads.push(J::obj().set("orig", 0i64).set("halts", 65535i64));
+            reheads.push(J::obj().set("orig", 0i64).set("halts", 65536i64));
+            reheads.push(J::obj().set("orig", 0i64).set("halts", 65600i64));
+        }
         J::obj()
             .set("program", scn::program_to_json(&program))
             .set("stack", stack)
